@@ -51,7 +51,8 @@ def main():
                 print('mutate: expected %d occurrence(s) of the old text, found %d' % (a.count, n))
                 return 2
             open(p, 'w').write(s.replace(a.old, a.new))
-        env = dict(os.environ, VERIF_REPO=wt)
+        out = '/tmp/mutout-%d' % os.getpid()
+        env = dict(os.environ, VERIF_REPO=wt, VERIF_OUT=out)      # evidence / v-files of the mutant run go to a scratch dir
         for c in checks:
             r = subprocess.run([os.path.join(HERE, 'check')] + c, env=env, cwd=HERE, stdout=subprocess.PIPE,
                                stderr=subprocess.STDOUT, text=True)
@@ -65,6 +66,7 @@ def main():
                 print(r.stdout[-1500:])
     finally:
         if not a.keep:
+            shutil.rmtree('/tmp/mutout-%d' % os.getpid(), ignore_errors=True)
             subprocess.run(['git', '-C', '/repo', 'worktree', 'remove', '--force', wt],
                            stdout=subprocess.DEVNULL, stderr=subprocess.DEVNULL)
             shutil.rmtree(wt, ignore_errors=True)
